@@ -1,6 +1,8 @@
 package diff
 
 import (
+	"errors"
+
 	"go.starlark.net/starlark"
 )
 
@@ -9,7 +11,104 @@ func Diff(old, new starlark.Value) (ValueDiff, error) {
 }
 
 func DiffDepth(old, new starlark.Value, depth int) (ValueDiff, error) {
-	eq, err := starlark.EqualDepth(old, new, depth)
+	return newMemo().diff(old, new, depth)
+}
+
+// A memo remembers the pairs of dicts and lists that have been compared or diffed during one call
+// of DiffDepth. Values often share sub-values (a function environment is a graph in which every
+// helper function appears once, however many functions call it); without the memo each shared pair
+// is compared again on every path that reaches it, which takes time exponential in the depth of
+// the sharing, and a value that contains itself is never finished.
+type memo struct {
+	equal map[[2]starlark.Value]bool
+	diffs map[[2]starlark.Value]ValueDiff
+}
+
+func newMemo() *memo {
+	return &memo{equal: map[[2]starlark.Value]bool{}, diffs: map[[2]starlark.Value]ValueDiff{}}
+}
+
+// memoKey returns the key of a pair of dicts or of lists (the mutable, pointer-identified containers).
+func memoKey(x, y starlark.Value) ([2]starlark.Value, bool) {
+	switch x.(type) {
+	case *starlark.Dict:
+		if _, ok := y.(*starlark.Dict); ok {
+			return [2]starlark.Value{x, y}, true
+		}
+	case *starlark.List:
+		if _, ok := y.(*starlark.List); ok {
+			return [2]starlark.Value{x, y}, true
+		}
+	}
+	return [2]starlark.Value{}, false
+}
+
+// equalDepth is starlark.EqualDepth for dicts, lists and tuples, with the memo: a pair that has
+// been found equal, or whose comparison is in progress, is not compared again.
+func (m *memo) equalDepth(x, y starlark.Value, depth int) (bool, error) {
+	if depth < 1 {
+		return false, errors.New("comparison exceeded maximum recursion depth")
+	}
+
+	key, keyed := memoKey(x, y)
+	if keyed {
+		if eq, ok := m.equal[key]; ok {
+			return eq, nil
+		}
+		m.equal[key] = true
+	}
+
+	eq, err := func() (bool, error) {
+		switch x := x.(type) {
+		case *starlark.Dict:
+			y, ok := y.(*starlark.Dict)
+			if !ok || x.Len() != y.Len() {
+				return false, nil
+			}
+			for _, item := range x.Items() {
+				yv, found, _ := y.Get(item[0])
+				if !found {
+					return false, nil
+				}
+				if eq, err := m.equalDepth(item[1], yv, depth-1); err != nil || !eq {
+					return false, err
+				}
+			}
+			return true, nil
+		case *starlark.List:
+			y, ok := y.(*starlark.List)
+			if !ok || x.Len() != y.Len() {
+				return false, nil
+			}
+			for i, n := 0, x.Len(); i < n; i++ {
+				if eq, err := m.equalDepth(x.Index(i), y.Index(i), depth-1); err != nil || !eq {
+					return false, err
+				}
+			}
+			return true, nil
+		case starlark.Tuple:
+			y, ok := y.(starlark.Tuple)
+			if !ok || len(x) != len(y) {
+				return false, nil
+			}
+			for i := range x {
+				if eq, err := m.equalDepth(x[i], y[i], depth-1); err != nil || !eq {
+					return false, err
+				}
+			}
+			return true, nil
+		default:
+			return starlark.EqualDepth(x, y, depth)
+		}
+	}()
+	if keyed {
+		m.equal[key] = eq && err == nil
+	}
+	return eq, err
+}
+
+func (m *memo) diff(old, new starlark.Value, depth int) (ValueDiff, error) {
+	eq, err := m.equalDepth(old, new, depth)
 	if err != nil {
 		return nil, err
 	}
@@ -17,22 +116,37 @@ func DiffDepth(old, new starlark.Value, depth int) (ValueDiff, error) {
 		return nil, nil
 	}
 
-	oldSlice, oldIsSlice := old.(starlark.Sliceable)
-	newSlice, newIsSlice := new.(starlark.Sliceable)
-	if oldIsSlice && newIsSlice {
-		return diffSlice(oldSlice, newSlice, depth-1)
+	key, keyed := memoKey(old, new)
+	if keyed {
+		if d, ok := m.diffs[key]; ok {
+			return d, nil
+		}
+		// A pair that is reached again while it is being diffed contributes nothing new.
+		m.diffs[key] = nil
 	}
 
-	oldMapping, oldIsMapping := old.(starlark.IterableMapping)
-	newMapping, newIsMapping := new.(starlark.IterableMapping)
-	if oldIsMapping && newIsMapping {
-		return diffMapping(oldMapping, newMapping, depth-1)
-	}
+	d, err := func() (ValueDiff, error) {
+		oldSlice, oldIsSlice := old.(starlark.Sliceable)
+		newSlice, newIsSlice := new.(starlark.Sliceable)
+		if oldIsSlice && newIsSlice {
+			return m.diffSlice(oldSlice, newSlice, depth-1)
+		}
 
-	return &LiteralDiff{valueDiff: valueDiff{old: old, new: new}}, nil
+		oldMapping, oldIsMapping := old.(starlark.IterableMapping)
+		newMapping, newIsMapping := new.(starlark.IterableMapping)
+		if oldIsMapping && newIsMapping {
+			return m.diffMapping(oldMapping, newMapping, depth-1)
+		}
+
+		return &LiteralDiff{valueDiff: valueDiff{old: old, new: new}}, nil
+	}()
+	if keyed && err == nil {
+		m.diffs[key] = d
+	}
+	return d, err
 }
 
-func diffMapping(old, new starlark.IterableMapping, depth int) (*MappingDiff, error) {
+func (m *memo) diffMapping(old, new starlark.IterableMapping, depth int) (*MappingDiff, error) {
 	edits := starlark.NewDict(0)
 
 	oldKeys := old.Iterate()
@@ -47,7 +161,7 @@ func diffMapping(old, new starlark.IterableMapping, depth int) (*MappingDiff, er
 			continue
 		}
 
-		diff, err := DiffDepth(oldV, newV, depth)
+		diff, err := m.diff(oldV, newV, depth)
 		if err != nil {
 			return nil, err
 		}
